@@ -20,10 +20,14 @@
 (*   R   (C28R.cfg, tlc -simulate) random types of depth <= 3, tuples      *)
 (*       <= 4, arrays of width <= 3, random values.                        *)
 (* Values per type: Vals(ty) - every leaf value occurs; arrays of width    *)
-(* 0,1,2,3; none/some; ok/err.                                             *)
+(* 0,1,2,3; none/some; ok/err.  Two of the string values contain text      *)
+(* outside ASCII (tokens U1..U3, see below).                               *)
 (***************************************************************************)
 EXTENDS Show, Json, IOUtils, TLCExt
 
+\* text outside ASCII cannot be written in a TLA+ string: U1, U2, U3 are opaque ASCII tokens which the driver replaces - in the
+\* program text and in the expected output alike - by a 2-byte character, a 3-byte + 4-byte pair and a combining sequence
+U1 == "~U1~"   U2 == "~U2~"   U3 == "~U3~"
 Leaves == <<TInt, TBool, TNil, TStr, TFlt>>
 NL == Len(Leaves)
 
@@ -31,7 +35,8 @@ LeafVals(t) ==
   CASE t.k = "int"  -> <<VInt(0), VInt(-7), VInt(1234567), VBig("9223372036854775807"), VBig("-9223372036854775808")>>
     [] t.k = "bool" -> <<VBool(TRUE), VBool(FALSE)>>
     [] t.k = "nil"  -> <<VNil>>
-    [] t.k = "str"  -> <<VStr(""), VStr("a b"), VStr("x, (y) ]"), VStr("q\"t\\"), VStr("l1\nl2\tz"), VStr("some(1)")>>
+    [] t.k = "str"  -> <<VStr(""), VStr("a b"), VStr("x, (y) ]"), VStr("q\"t\\"), VStr("l1\nl2\tz"), VStr("some(1)"),
+                        VStr("caf" \o U1), VStr(U2 \o " z" \o U3)>>
     [] t.k = "flt"  -> <<VFlt(0, 0), VFlt(5, 1), VFlt(-1, 3), VFlt(3, 0), VFlt(1, 12), VFlt(-12345, 0)>>
 
 Cyc(s, j) == s[((j - 1) % Len(s)) + 1]
